@@ -702,6 +702,368 @@ theorem rename_single_step_complete (today : Int) (olds : List OldName) (cur : L
 
 end
 
+section Histories
+/-! ### every reachable settings object (assign / revert / changeDefault / copy / modified in any order) -/
+variable {V : Type}
+
+private theorem names_setVal' (r : Reg V) (n : String) (v : V) : names (setVal r n v) = names r := by
+  unfold names setVal
+  rw [List.map_map]
+  apply List.map_congr_left
+  intro e _; simp only [Function.comp]; split <;> rfl
+
+private theorem has_iff' (r : Reg V) (n : String) : has r n = true ↔ n ∈ names r := by
+  unfold has; exact List.contains_iff_mem
+
+private theorem names_revert (r : Reg V) (n : String) : names (revert r n) = names r := by
+  unfold names revert
+  rw [List.map_map]
+  apply List.map_congr_left
+  intro e _; simp only [Function.comp]; split <;> rfl
+
+private theorem names_assign (schema : String → V → Option V) (r : Reg V) (n : String) (raw : V) :
+    names (assign schema r n raw).1 = names r := by
+  unfold assign
+  split
+  · split
+    · exact names_setVal' _ _ _
+    · rfl
+  · rfl
+
+private theorem names_changeDefault (schema : String → V → Option V) (r : Reg V) (n : String) (raw : V) :
+    names (changeDefault schema r n raw).1 = names r := by
+  unfold changeDefault
+  split
+  · split <;> (unfold names; simp only []; rw [List.map_map]; apply List.map_congr_left; intro e _; simp only [Function.comp]; split <;> rfl)
+  · rfl
+
+private theorem copyReg_nodup_aux (l : List (Entry V)) : ∀ (acc : Reg V), (names acc).Nodup →
+    (names (l.foldl (fun acc e => if has acc e.name then setVal acc e.name e.value else acc ++ [e]) acc)).Nodup ∧
+    ∀ n ∈ names acc, n ∈ names (l.foldl (fun acc e => if has acc e.name then setVal acc e.name e.value else acc ++ [e]) acc) := by
+  induction l with
+  | nil => intro acc h; exact ⟨h, fun _ hn => hn⟩
+  | cons e es ih =>
+    intro acc h
+    simp only [List.foldl_cons]
+    by_cases hh : has acc e.name = true
+    · simp only [hh, if_true]
+      have := ih (setVal acc e.name e.value) (by rw [names_setVal']; exact h)
+      rw [names_setVal'] at this
+      exact this
+    · simp only [hh, Bool.false_eq_true, if_false]
+      have hn : e.name ∉ names acc := fun hc => hh ((has_iff' _ _).mpr hc)
+      have hnd : (names (acc ++ [e])).Nodup := by
+        unfold names at *
+        rw [List.map_append, List.nodup_append]
+        refine ⟨h, by simp, ?_⟩
+        intro a ha b hb
+        simp at hb; subst hb
+        intro hab; subst hab; exact hn ha
+      obtain ⟨h1, h2⟩ := ih (acc ++ [e]) hnd
+      refine ⟨h1, fun n hn' => h2 n ?_⟩
+      unfold names at *; rw [List.map_append]; exact List.mem_append_left _ hn'
+
+private theorem copyReg_nodup (app r : Reg V) (h : (names app).Nodup) : (names (copyReg app r)).Nodup :=
+  (copyReg_nodup_aux r app h).1
+
+private theorem copyReg_keeps_app_names (app r : Reg V) (h : (names app).Nodup) : ∀ n ∈ names app, n ∈ names (copyReg app r) :=
+  (copyReg_nodup_aux r app h).2
+
+private theorem nodup_append_new (acc : Reg V) (e : Entry V) (h : (names acc).Nodup) (hn : e.name ∉ names acc) :
+    (names (acc ++ [e])).Nodup := by
+  unfold names at *
+  rw [List.map_append, List.nodup_append]
+  refine ⟨h, by simp, ?_⟩
+  intro a ha b hb
+  simp at hb; subst hb
+  intro hab; subst hab; exact hn ha
+
+private theorem mem_names_append (acc : Reg V) (e : Entry V) (n : String) (h : n ∈ names acc) : n ∈ names (acc ++ [e]) := by
+  unfold names at *; rw [List.map_append]; exact List.mem_append_left _ h
+
+/-- invariant carried by one `modifyOne` step -/
+private theorem modifyOne_inv (schema : String → V → Option V) (acc : Reg V × Bool) (kv : String × NewItem V)
+    (h : (names acc.1).Nodup) :
+    (names (modifyOne schema acc kv).1).Nodup ∧ ∀ n ∈ names acc.1, n ∈ names (modifyOne schema acc kv).1 := by
+  unfold modifyOne
+  by_cases hb : acc.2 = true
+  · simp only [hb, Bool.not_true, Bool.false_eq_true, if_false]
+    cases hk : kv.2 with
+    | obj d v =>
+      simp only []
+      by_cases hh : has acc.1 kv.1 = true
+      · simp only [hh, if_true]
+        have hn : names (acc.1.map (fun e => if e.name == kv.1 then ({ name := kv.1, default := d, value := v } : Entry V) else e)) = names acc.1 := by
+          unfold names; rw [List.map_map]; apply List.map_congr_left
+          intro e _; simp only [Function.comp]
+          split
+          · rename_i he; simp at he; simp [he]
+          · rfl
+        rw [hn]; exact ⟨h, fun _ hn => hn⟩
+      · simp only [hh, Bool.false_eq_true, if_false]
+        have hn : kv.1 ∉ names acc.1 := fun hc => hh ((has_iff' _ _).mpr hc)
+        exact ⟨nodup_append_new acc.1 ⟨kv.1, d, v⟩ h hn, fun n hn' => mem_names_append _ _ _ hn'⟩
+    | val raw =>
+      simp only []
+      by_cases hh : has acc.1 kv.1 = true
+      · simp only [hh, if_true]
+        cases schema kv.1 raw with
+        | none => exact ⟨h, fun _ hn => hn⟩
+        | some v => simp only []; rw [names_setVal']; exact ⟨h, fun _ hn => hn⟩
+      · simp only [hh, Bool.false_eq_true, if_false]
+        have hn : kv.1 ∉ names acc.1 := fun hc => hh ((has_iff' _ _).mpr hc)
+        exact ⟨nodup_append_new acc.1 ⟨kv.1, raw, raw⟩ h hn, fun n hn' => mem_names_append _ _ _ hn'⟩
+  · simp only [hb, Bool.not_false, if_true]
+    exact ⟨h, fun _ hn => hn⟩
+
+private theorem modifiedReg_inv (schema : String → V → Option V) (news : List (String × NewItem V)) :
+    ∀ (r r' : Reg V), (names r).Nodup → modifiedReg schema r news = some r' →
+      (names r').Nodup ∧ ∀ n ∈ names r, n ∈ names r' := by
+  have aux : ∀ (news : List (String × NewItem V)) (acc : Reg V × Bool), (names acc.1).Nodup →
+      (names (news.foldl (modifyOne schema) acc).1).Nodup ∧ ∀ n ∈ names acc.1, n ∈ names (news.foldl (modifyOne schema) acc).1 := by
+    intro news
+    induction news with
+    | nil => intro acc h; exact ⟨h, fun _ hn => hn⟩
+    | cons kv rest ih =>
+      intro acc h
+      simp only [List.foldl_cons]
+      obtain ⟨h1, h2⟩ := modifyOne_inv schema acc kv h
+      obtain ⟨h3, h4⟩ := ih _ h1
+      exact ⟨h3, fun n hn => h4 n (h2 n hn)⟩
+  intro r r' h hm
+  unfold modifiedReg at hm
+  simp only at hm
+  split at hm
+  · simp only [Option.some.injEq] at hm; subst hm; exact aux news (r, true) h
+  · cases hm
+
+
+private theorem valueOf_append_other (acc : Reg V) (e : Entry V) (m : String) (h : e.name ≠ m) :
+    valueOf (acc ++ [e]) m = valueOf acc m := by
+  induction acc with
+  | nil => rw [List.nil_append, valueOf_cons]; simp [h, valueOf, find?]
+  | cons a acc ih => rw [List.cons_append, valueOf_cons, valueOf_cons, ih]
+
+private theorem valueOf_append_new (acc : Reg V) (e : Entry V) (h : e.name ∉ names acc) :
+    valueOf (acc ++ [e]) e.name = some e.value := by
+  induction acc with
+  | nil => rw [List.nil_append, valueOf_cons]; simp
+  | cons a acc ih =>
+    have h1 : a.name ≠ e.name := by
+      intro hc; apply h; simp [names, hc]
+    have h2 : e.name ∉ names acc := by
+      intro hc; apply h; simp only [names, List.map_cons, List.mem_cons]; exact Or.inr hc
+    rw [List.cons_append, valueOf_cons, ih h2]; simp [h1]
+
+/-- the `__setstate__` loop leaves every name it does not visit alone -/
+private theorem copyFold_untouched (l : List (Entry V)) : ∀ (acc : Reg V) (m : String), m ∉ names l →
+    valueOf (l.foldl (fun acc e => if has acc e.name then setVal acc e.name e.value else acc ++ [e]) acc) m = valueOf acc m := by
+  induction l with
+  | nil => intro acc m _; rfl
+  | cons e es ih =>
+    intro acc m hm
+    have h1 : e.name ≠ m := by intro hc; apply hm; simp [names, hc]
+    have h2 : m ∉ names es := by intro hc; apply hm; simp only [names, List.map_cons, List.mem_cons]; exact Or.inr hc
+    simp only [List.foldl_cons]
+    rw [ih _ m h2]
+    by_cases hh : has acc e.name = true
+    · simp only [hh, if_true]; exact valueOf_setVal_other acc e.name m e.value (fun hc => h1 hc.symm)
+    · simp only [hh, Bool.false_eq_true, if_false]; exact valueOf_append_other acc e m h1
+
+/-- **a copy holds the values of its original**: `__setstate__` (deepcopy / duplicate / modified / unpickling) hands every
+setting's value over unchanged — assigned on the original or inherited from an earlier copy alike — whatever the
+application's defaults are. -/
+theorem copyReg_value_preserving (app r : Reg V) (hnd : (names r).Nodup) (e : Entry V) (he : e ∈ r) :
+    valueOf (copyReg app r) e.name = some e.value := by
+  unfold copyReg
+  have aux : ∀ (l : List (Entry V)) (acc : Reg V), (names l).Nodup → e ∈ l →
+      valueOf (l.foldl (fun acc e => if has acc e.name then setVal acc e.name e.value else acc ++ [e]) acc) e.name = some e.value := by
+    intro l
+    induction l with
+    | nil => intro acc _ h; cases h
+    | cons x xs ih =>
+      intro acc hn hmem
+      simp only [List.foldl_cons]
+      have hn' : x.name ∉ names xs ∧ (names xs).Nodup := by
+        simpa [names] using hn
+      rcases List.mem_cons.mp hmem with rfl | hin
+      · rw [copyFold_untouched xs _ _ hn'.1]
+        by_cases hh : has acc e.name = true
+        · simp only [hh, if_true]; exact valueOf_setVal_same acc e.name e.value ((has_iff _ _).mp hh)
+        · simp only [hh, Bool.false_eq_true, if_false]
+          exact valueOf_append_new acc e (fun hc => hh ((has_iff _ _).mpr hc))
+      · exact ih _ hn'.2 hin
+  exact aux r app hnd he
+
+
+/-- the invariant of every reachable settings object: unique names, and every name the application defines -/
+theorem runOps_inv (schema : String → V → Option V) (app : Reg V) (happ : (names app).Nodup) (ops : List (Op V)) :
+    (names (runOps schema app ops)).Nodup ∧ ∀ n ∈ names app, n ∈ names (runOps schema app ops) := by
+  have aux : ∀ (ops : List (Op V)) (r : Reg V), ((names r).Nodup ∧ ∀ n ∈ names app, n ∈ names r) →
+      ((names (ops.foldl (stepOp schema app) r)).Nodup ∧ ∀ n ∈ names app, n ∈ names (ops.foldl (stepOp schema app) r)) := by
+    intro ops
+    induction ops with
+    | nil => intro r h; exact h
+    | cons op rest ih =>
+      intro r h
+      simp only [List.foldl_cons]
+      apply ih
+      cases op with
+      | set n raw => simp only [stepOp]; rw [names_assign]; exact h
+      | revert n => simp only [stepOp]; rw [names_revert]; exact h
+      | chdef n raw => simp only [stepOp]; rw [names_changeDefault]; exact h
+      | copy => simp only [stepOp]; exact ⟨copyReg_nodup app r happ, copyReg_keeps_app_names app r happ⟩
+      | modify news =>
+        simp only [stepOp]
+        cases hm : modifiedReg schema (copyReg app r) news with
+        | none => exact h
+        | some r' =>
+          obtain ⟨h1, h2⟩ := modifiedReg_inv schema news _ r' (copyReg_nodup app r happ) hm
+          exact ⟨h1, fun n hn => h2 n (copyReg_keeps_app_names app r happ n hn)⟩
+  exact aux ops app ⟨happ, fun _ hn => hn⟩
+
+variable [DecidableEq V]
+
+/-- **write/read round trip for every reachable settings object, every style**: whatever history of assignments (accepted or
+refused), `revertToDefault`, `changeDefault`, copies (`deepcopy` / `duplicate` / pickle) and `modified(...)` produced the
+object, writing it in any style and reading the file into an object with the same definitions gives every setting the value
+the object holds — in particular the values a copy INHERITED without re-assignment. Hypotheses: the per-value YAML/schema
+contract on the final object (a parameter, measured by the harness) and the `versions` stamp being admissible. -/
+theorem reachable_read_write_id (schema : String → V → Option V) (dump : String → V → V) (stamp : V → V) (blank : V)
+    (style : Style) (user : List String) (rn : Renames) (app : Reg V) (ops : List (Op V))
+    (happ : (names app).Nodup) (hver : versionsName ∈ names app)
+    (hrt : ∀ e ∈ runOps schema app ops, e.name ≠ versionsName → schema e.name (dump e.name e.value) = some e.value)
+    (hst : ∀ y, (schema versionsName (stamp y)).isSome = true) :
+    let r := runOps schema app ops
+    (readDoc schema rn (fresh r) (writeDoc dump stamp blank style user r)).ok = true ∧
+    (readDoc schema rn (fresh r) (writeDoc dump stamp blank style user r)).invalid = [] ∧
+    ∀ n, n ≠ versionsName →
+      valueOf (readDoc schema rn (fresh r) (writeDoc dump stamp blank style user r)).reg n = valueOf r n := by
+  obtain ⟨h1, h2⟩ := runOps_inv schema app happ ops
+  exact read_write_id schema dump stamp blank style user rn _ h1 (h2 _ hver) hrt hst
+
+/-- the "at its default" answer is the comparison of value and default, on every object (original or copy): the short style
+writes a setting iff that comparison says "differs" -/
+theorem isDefault_iff (r : Reg V) (e : Entry V) (he : e ∈ r) (hnd : (names r).Nodup) :
+    isDefault r e.name = some (decide (e.value = e.default)) ∧ (offDefault e = !decide (e.value = e.default)) := by
+  constructor
+  · unfold isDefault
+    have : find? r e.name = some e := by
+      have hv := valueOf_of_mem r hnd e he
+      unfold valueOf at hv
+      cases hf : find? r e.name with
+      | none => rw [hf] at hv; simp at hv
+      | some e' =>
+        have hm : e' ∈ r := by unfold find? at hf; exact List.mem_of_find?_eq_some hf
+        have hn : e'.name = e.name := by
+          unfold find? at hf; have := List.find?_some hf; simpa using this
+        rw [entry_unique r hnd e' e hm he hn]
+    rw [this]; rfl
+  · unfold offDefault; by_cases h : e.value = e.default <;> simp [h]
+
+end Histories
+
+section Numeric
+/-! ### numeric schemas: coerce, then validate -/
+
+/-- whatever a numeric setting accepts lies in its range -/
+theorem numSchema_sound (t : NumType) (rg : NumRange) (raw : RawNum) (v : Num) (h : numSchema t rg raw = some v) :
+    inRange rg v.val = true := by
+  unfold numSchema at h
+  simp only at h
+  split at h
+  · rename_i hr; simp only [Option.some.injEq] at h; rw [← h]; exact hr
+  · cases h
+
+private theorem coerceNum_toRaw (t : NumType) (raw : RawNum) : coerceNum t (coerceNum t raw).toRaw = coerceNum t raw := by
+  cases t <;> cases raw <;> rfl
+
+/-- **an accepted value is a value the setting can hold**: the stored (coerced) value passes the setting's schema again and
+comes back unchanged — this is the hypothesis `schema n (dump n v) = some v` of `read_write_id`, PROVED for every setting
+whose schema is `All(Coerce(int|float), Range(…))` (numbers survive the YAML text unchanged: harness) -/
+theorem numSchema_fixpoint (t : NumType) (rg : NumRange) (raw : RawNum) (v : Num) (h : numSchema t rg raw = some v) :
+    numSchema t rg v.toRaw = some v := by
+  have hs := numSchema_sound t rg raw v h
+  unfold numSchema at h ⊢
+  simp only at h ⊢
+  split at h
+  · simp only [Option.some.injEq] at h
+    subst h
+    rw [coerceNum_toRaw]; simp [hs]
+  · cases h
+
+/-- a refused numeric value leaves the previous value in place, an accepted one is stored coerced (instance of
+`invalid_rejected_keeps_previous` / `assign_valid` with the schema no longer a parameter) -/
+theorem numeric_assign {V : Type} (enc : Num → V) (dec : V → Option RawNum) (t : NumType) (rg : NumRange) (r : Reg V)
+    (n : String) (raw : V) (x : RawNum) (hx : dec raw = some x) :
+    let schema : String → V → Option V := fun _ w => (dec w).bind (fun y => (numSchema t rg y).map enc)
+    (numSchema t rg x = none → (assign schema r n raw).1 = r) ∧
+    (∀ v, numSchema t rg x = some v → has r n = true → (assign schema r n raw).1 = setVal r n (enc v)) := by
+  intro schema
+  constructor
+  · intro h; unfold assign; split
+    · simp [schema, hx, h]
+    · rfl
+  · intro v h hh; unfold assign; simp [hh, schema, hx, h]
+
+/-- **a non-integer strictly between 0 and 1 is refused by an integer-typed strictly-positive setting**
+(axialMeshRefinementFactor, buGroups, tempGroups): `int(q) = 0` is not higher than 0.  `0 < q < 1` is stated on the
+normalised numerator / denominator of the rational. -/
+theorem fraction_refused_by_positive_int (q : Rat) (h0 : 0 ≤ q.num) (h1 : q.num < q.den) (mx : Option Rat) (mi : Bool) :
+    numSchema .int ⟨some 0, mx, false, mi⟩ (.float q) = none := by
+  have ht : truncate q = 0 := by unfold truncate; exact Int.tdiv_eq_zero_of_lt h0 h1
+  unfold numSchema
+  simp [coerceNum, ht, inRange, Num.val]
+
+/-- validating BEFORE coercing admits what the setting cannot hold: 1/2 passes `Range(min=0, min_included=False)`, is then
+truncated to 0, and 0 is refused by the very same schema (so the written file cannot be read back) -/
+theorem range_before_coerce_admits_what_it_cannot_hold :
+    numSchemaRangeFirst .int ⟨some 0, none, false, true⟩ (.float (1/2)) = some (.int 0) ∧
+    numSchemaRangeFirst .int ⟨some 0, none, false, true⟩ (Num.int 0).toRaw = none ∧
+    numSchema .int ⟨some 0, none, false, true⟩ (.float (1/2)) = none := by decide +kernel
+
+example : numSchema .int ⟨some 0, none, false, true⟩ (.float (5/2)) = some (.int 2) := by decide +kernel
+example : numSchema .float ⟨some 0, some 1, true, true⟩ (.bool true) = some (.float 1) := by decide +kernel
+example : numSchema .int ⟨some 0, none, false, true⟩ (.float (-1/2)) = none := by decide +kernel
+
+/-- **a list containing one bad element is refused as a whole** (e.g. `[0.25, 10, 20]` for `buGroups`) -/
+theorem numListSchema_rejects_bad_element (t : NumType) (rg : NumRange) (l : List RawNum) (x : RawNum) (hx : x ∈ l)
+    (hbad : numSchema t rg x = none) : numListSchema t rg l = none := by
+  induction l with
+  | nil => cases hx
+  | cons y ys ih =>
+    unfold numListSchema
+    rcases List.mem_cons.mp hx with rfl | h
+    · simp [hbad]
+    · rw [ih h]; cases numSchema t rg y <;> rfl
+
+/-- an accepted list is a list the setting can hold: it passes the list schema again, unchanged -/
+theorem numListSchema_fixpoint (t : NumType) (rg : NumRange) : ∀ (l : List RawNum) (vs : List Num),
+    numListSchema t rg l = some vs → numListSchema t rg (vs.map Num.toRaw) = some vs := by
+  intro l
+  induction l with
+  | nil => intro vs h; simp [numListSchema] at h; subst h; rfl
+  | cons y ys ih =>
+    intro vs h
+    unfold numListSchema at h
+    cases hy : numSchema t rg y with
+    | none => simp [hy] at h
+    | some v =>
+      cases hys : numListSchema t rg ys with
+      | none => simp [hy, hys] at h
+      | some ws =>
+        simp [hy, hys] at h
+        subst h
+        simp only [List.map_cons]
+        unfold numListSchema
+        rw [numSchema_fixpoint t rg y v hy, ih ws hys]
+
+example : numListSchema .int ⟨some 0, none, false, true⟩ [.float (1/4), .int 10, .int 20] = none := by decide +kernel
+example : numListSchema .int ⟨some 0, none, false, true⟩ [.float (5/2), .int 10, .bool true] = some [.int 2, .int 10, .int 1] := by
+  decide +kernel
+
+end Numeric
+
 section Examples
 /-! Non-vacuity: the hypotheses of the theorems above are satisfiable (concrete instances). -/
 private def exSchema : String → Nat → Option Nat := fun n v => if n = "b" ∧ v > 100 then none else some v
@@ -714,6 +1076,13 @@ example : ∀ n, n ≠ versionsName →
       = valueOf exReg n :=
   (read_write_id exSchema (fun _ v => v) (fun _ => 99) 0 .short [] ⟨[], []⟩ exReg
     (by decide +kernel) (by decide +kernel) (by decide +kernel) (by intro y; rfl)).2.2
+
+/-- `reachable_read_write_id` / `copyReg_value_preserving`: a history with an inherited value, a changed default and a revert -/
+private def exApp : Reg Nat := [⟨"b", 1, 1⟩, ⟨"A", 2, 2⟩, ⟨"versions", 0, 0⟩]
+private def exOps : List (Op Nat) := [.set "b" 7, .chdef "A" 5, .copy, .set "A" 9, .modify [("b", .val 8)], .revert "A", .copy]
+example : runOps exSchema exApp exOps = [⟨"b", 1, 8⟩, ⟨"A", 2, 2⟩, ⟨"versions", 0, 0⟩] := by decide +kernel
+example : valueOf (copyReg exApp [⟨"b", 1, 7⟩, ⟨"A", 5, 5⟩, ⟨"versions", 0, 0⟩]) "A" = some 5 ∧
+    isDefault (copyReg exApp [⟨"b", 1, 7⟩, ⟨"A", 5, 5⟩, ⟨"versions", 0, 0⟩]) "A" = some false := by decide +kernel
 
 /-- `invalid_rejected_keeps_previous`: a refused value exists -/
 example : (assign exSchema exReg "b" 101).2 = .invalid ∧ (assign exSchema exReg "b" 101).1 = exReg :=
